@@ -53,7 +53,7 @@ CONFIGS = {
 ORD_ANYKEY = ["plain", "nullproto", "func", "arrow", "bound", "cls", "method", "err", "date", "regexp", "map", "promise",
               "gen", "numobj", "objproto", "math", "math2", "json"]
 NONINDEX = ["array", "array3", "sparse", "args", "sargs", "strobj"]          # index keys are exotic there
-KEYMAPS_ALL = ["str", "sym", "idx", "idx7", "big", "neg0", "frac", "long", "uni"]
+KEYMAPS_ALL = ["str", "sym", "idx", "idx7", "num7", "big", "neg0", "frac", "long", "uni"]      # num7: the key passed as the NUMBER 7 (integer-key paths)
 KEYMAPS_NONIDX = ["str", "sym", "big", "neg0", "frac", "uni"]
 
 
@@ -68,6 +68,9 @@ def variants(cfgname, thorough):
         for k in NONINDEX:
             for m in KEYMAPS_NONIDX:
                 v.append((k, m, "plain"))
+        # an integer key beyond the characters of a String object is an ordinary property (as string and as number)
+        v.append(("strobj", "idx7", "plain"))
+        v.append(("strobj", "num7", "plain"))
         v.append(("typed", "str", "plain"))
         v.append(("typed", "sym", "plain"))
         v.append(("global", "str", "plain"))
